@@ -146,7 +146,7 @@ func TestVerifReplay(t *testing.T) {
         ov = write_overlay(tmp, h.overlays, {os.path.join(pkgrel, "zz_verif_replay_test.go"): test})
         env = clean_env()
         env["VERIF_CEX"] = cex
-        p = subprocess.run(["go", "test", "-vet=off", "-count=1", "-run", "^TestVerifReplay$", "-overlay", ov, "./" + pkgrel],
+        p = subprocess.run(["go", "test", "-v", "-vet=off", "-count=1", "-run", "^TestVerifReplay$", "-overlay", ov, "./" + pkgrel],
                            cwd=REPO, env=env, capture_output=True, text=True, timeout=900)
         txt = p.stdout + p.stderr
         m = re.search(r"VERIF-REPLAY failed=(\[.*?\]) panicked=(.*?) assume_violated=(\w+)", txt)
@@ -185,14 +185,21 @@ def finding_key(v):
 
 
 def run_property(prop, tier, harnesses, level, explanation, assumptions, outside, functions_note="",
-                 uses_uf=False, quick_deadline=600, thorough_deadline=3600, extra_cov=None):
+                 uses_uf=False, quick_deadline=600, thorough_deadline=3600, extra_cov=None, parallel=1):
     t0 = time.time()
     seed = int(os.environ.get("VERIF_SEED", "1"))
     ensure_engine()
     deadline = quick_deadline if tier == "quick" else thorough_deadline
     results = []
-    for h in harnesses:
-        results.append(run_harness(prop, h, deadline))
+    if parallel > 1:
+        # harnesses with few paths cannot use many workers: run several side by side
+        from concurrent.futures import ThreadPoolExecutor
+        w = max(2, (os.cpu_count() or 4) // parallel)
+        with ThreadPoolExecutor(parallel) as ex:
+            results = list(ex.map(lambda h: run_harness(prop, h, deadline, workers=w), harnesses))
+    else:
+        for h in harnesses:
+            results.append(run_harness(prop, h, deadline))
     known = [k for k in known_findings() if k["property"] == prop]
     violations, inconcl, lines = [], [], []
     agg = dict(paths=0, obligations=0, discharged=0, trivial=0, unknown=0, queries=0, solver_s=0.0, distinct=0,
